@@ -639,6 +639,10 @@ func ruleErrorsAccumulate(w *World, r *Report, ruleAcc, ruleResult string) {
 					bad = fmt.Sprintf("the exit at %s returns a DisposalError without having established that %s is non-empty", w.Pos(ex.Pos), acc.Name())
 				}
 			default:
+				// `var result error; if len(acc) > 0 { result = &DisposalError{…} }; …; return result`
+				if resultVarIdiom(w, info, F, res, lit, acc) {
+					return
+				}
 				bad = fmt.Sprintf("the exit at %s returns %s, neither nil nor the DisposalError built from %s", w.Pos(ex.Pos), exprStr(res), acc.Name())
 			}
 		}
@@ -907,4 +911,62 @@ func snapshotAndResetInOneSection(w *World, t *FuncInfo, p types.Object) bool {
 		}
 	}
 	return resets > 0 && good
+}
+
+// resultVarIdiom: res is a local error variable that starts as nil and is
+// assigned exactly once, the DisposalError literal, under exactly one condition -
+// a test of the accumulator's length (the non-empty edge): returning it is
+// returning "nil or the DisposalError".
+func resultVarIdiom(w *World, info *types.Info, F *FuncInfo, res ast.Expr, lit *ast.CompositeLit, acc types.Object) bool {
+	o, ok := objOf(info, res).(*types.Var)
+	if !ok || o.IsField() || !isErrorType(o.Type()) {
+		return false
+	}
+	assigns, good := 0, true
+	ast.Inspect(F.Decl.Body, func(x ast.Node) bool {
+		switch st := x.(type) {
+		case *ast.ValueSpec:
+			for i, nm := range st.Names {
+				if info.Defs[nm] == o && i < len(st.Values) && !isNilIdent(info, st.Values[i]) {
+					good = false
+				}
+			}
+		case *ast.AssignStmt:
+			for i, l := range st.Lhs {
+				if objOf(info, l) != o {
+					continue
+				}
+				if st.Tok == token.DEFINE && i < len(st.Rhs) && isNilIdent(info, st.Rhs[i]) {
+					continue
+				}
+				assigns++
+				if i >= len(st.Rhs) || litOf(st.Rhs[i]) != lit {
+					good = false
+					continue
+				}
+				// exactly one condition holds on the way to the assignment - the test that the
+				// accumulator is non-empty; the others are early exits that were not taken (the gate)
+				conds, vals := controllingCondsInfo(info, F.Decl.Body, st.Pos())
+				lenTests, others := 0, 0
+				for k, cd := range conds {
+					if !vals[k] {
+						continue
+					}
+					be, isBe := unparen(cd).(*ast.BinaryExpr)
+					if isBe && (be.Op == token.GTR || be.Op == token.NEQ) {
+						if c, isC := unparen(be.X).(*ast.CallExpr); isC && exprStr(c.Fun) == "len" && len(c.Args) == 1 && baseObj(info, c.Args[0]) == acc {
+							lenTests++
+							continue
+						}
+					}
+					others++
+				}
+				if lenTests != 1 || others != 0 {
+					good = false
+				}
+			}
+		}
+		return true
+	})
+	return good && assigns == 1
 }
